@@ -195,4 +195,226 @@ theorem zip_map_replicate {α β γ : Type} (f : α → β) (c : γ) : ∀ l : L
   | [] => rfl
   | a :: l => by simp [List.replicate_succ, zip_map_replicate f c l]
 
+theorem coefBits_length (coefs : List Int) (numU : Nat) (hlen : numU ≤ coefs.length) : (coefBits coefs numU).length = 16 * numU := by
+  unfold coefBits
+  have : ∀ l : List Int, (l.flatMap fun c => bitsOf (wrapU 16 c) 16).length = 16 * l.length := by
+    intro l; induction l with
+    | nil => rfl
+    | cons a l ih => rw [List.flatMap_cons, List.length_append, bitsOf_length, ih, List.length_cons]; omega
+  rw [this, List.length_take, Nat.min_eq_left hlen]
+
+/-- the shift part of a compressed pair -/
+def pairShiftBits (depth : Nat) (ls rs : List Int) : Bits :=
+  if bytesShiftedOf depth ≠ 0 then
+    ((List.zip ls rs).map fun lr => (pairIn depth lr.1 lr.2).2).flatMap fun ab => bitsOf (ab.1 * 2 ^ (8 * bytesShiftedOf depth) + ab.2) (2 * (8 * bytesShiftedOf depth))
+  else []
+
+theorem pairShiftBits_length (depth : Nat) (ls rs : List Int) (hlen : ls.length = rs.length) :
+    (pairShiftBits depth ls rs).length = if bytesShiftedOf depth ≠ 0 then 2 * (8 * bytesShiftedOf depth) * ls.length else 0 := by
+  unfold pairShiftBits
+  split
+  · have : ∀ (w : Nat) (l : List (Nat × Nat)), (l.flatMap fun ab => bitsOf (ab.1 * 2 ^ (8 * bytesShiftedOf depth) + ab.2) w).length = w * l.length := by
+      intro w l; induction l with
+      | nil => rfl
+      | cons a l ih => rw [List.flatMap_cons, List.length_append, bitsOf_length, ih, List.length_cons]; simp [Nat.mul_succ]; omega
+    rw [this]; simp [hlen]
+  · rfl
+
+theorem compPairBits_eq (depth fs : Nat) (ls rs : List Int) (mixRes : Nat) (cU cV : List Int) (numU numV : Nat) :
+    compPairBits depth fs ls rs mixRes cU cV numU numV =
+      hdrBits (decide (ls.length ≠ fs)) (bytesShiftedOf depth) ls.length false ++ (bitsOf 2 8 ++ (bitsOf mixRes 8 ++
+        (bitsOf 9 8 ++ (bitsOf (4 * 32 + numU) 8 ++ (coefBits cU numU ++ (bitsOf 9 8 ++ (bitsOf (4 * 32 + numV) 8 ++ (coefBits cV numV ++
+        (pairShiftBits depth ls rs ++
+          (dynComp stdAg (pcBlock (((List.zip ls rs).map (pairUV depth mixRes)).map (·.1)) cU numU (depth - 8 * bytesShiftedOf depth + 1) 9).1
+              (depth - 8 * bytesShiftedOf depth + 1) ++
+            dynComp stdAg (pcBlock (((List.zip ls rs).map (pairUV depth mixRes)).map (·.2)) cV numV (depth - 8 * bytesShiftedOf depth + 1) 9).1
+              (depth - 8 * bytesShiftedOf depth + 1))))))))))) := by
+  unfold compPairBits pairShiftBits
+  simp only [mixPairs_eq, List.append_assoc]
+
+/-- `dyn_decomp` + `unpc_block` of one channel on what the encoder wrote for it (mode 0, denShift 9, pbFactor 4) -/
+theorem decChan_comp (cfg : Config) (hmb : cfg.mb = 10) (hpb : cfg.pb = 40) (hkb : cfg.kb = 14) (byteSize cb : Nat) (hcb1 : 1 ≤ cb) (hcb : cb ≤ 31)
+    (pc coefs : List Int) (num n : Nat) (hn : pc.length = n) (hnum : num < 32) (hfit : ∀ x ∈ pc, Fits cb x) (rest : Bits) (pos : Nat)
+    (hroom : pos + (dynComp stdAg pc cb).length ≤ byteSize * 8) :
+    decChan cfg byteSize n cb (0, 9, (128 + num) / 32, coefs) ⟨dynComp stdAg pc cb ++ rest, pos⟩ =
+      (some (unpcBlock pc coefs coefs.length cb 9), ⟨rest, pos + (dynComp stdAg pc cb).length⟩) := by
+  have hag : setAgParams cfg.mb (cfg.pb * ((128 + num) / 32) / 4) cfg.kb = stdAg := by
+    rw [hmb, hpb, hkb, show (128 + num) / 32 = 4 by omega]; rfl
+  subst hn
+  simp only [decChan, hag]
+  rw [dynDecomp_dynComp cb hcb1 hcb pc hfit rest pos byteSize hroom]
+  simp
+
+theorem sext8_small (m : Nat) (hm : m ≤ 4) : sext 8 m = (m : Int) := by
+  unfold sext
+  simp only [Nat.reduceSub, Nat.reducePow]
+  split <;> omega
+
+/-- without shifted-off bytes (16 / 20 bit) the un-matrixing ignores the shift buffer -/
+theorem unmixPair_noshift {depth : Nat} (hd : Depth depth) (hb0 : bytesShiftedOf depth = 0) (mixRes u v : Int) (s t : Nat × Nat) :
+    unmixPair depth 0 2 mixRes u v s = unmixPair depth 0 2 mixRes u v t := by
+  rcases hd with rfl | rfl | rfl | rfl
+  · simp [unmixPair]
+  · simp [unmixPair]
+  · simp [bytesShiftedOf] at hb0
+  · simp [bytesShiftedOf] at hb0
+
+/-- a compressed channel pair, whatever mixing ratio (0 … 4), coefficient rows and orders the encoder's search picked, is
+    decoded to the samples of both channels (low bits cleared) -/
+theorem decPair_comp {cfg : Config} (hd : Depth cfg.bitDepth) (hmb : cfg.mb = 10) (hpb : cfg.pb = 40) (hkb : cfg.kb = 14)
+    (byteSize inst reqN : Nat) (ls rs : List Int) (hlen : ls.length = rs.length) (mixRes : Nat) (hm : mixRes ≤ 4)
+    (cU cV : List Int) (numU numV : Nat) (hU : numU ≤ cU.length) (hV : numV ≤ cV.length) (hnu : numU < 31) (hnv : numV < 31)
+    (hcU : ∀ c ∈ cU.take numU, Int16 c) (hcV : ∀ c ∈ cV.take numV, Int16 c) (hls : ∀ x ∈ ls, I32 x) (hrs : ∀ x ∈ rs, I32 x)
+    (hn : ls.length ≤ frameLen) (hreq : ls.length = frameLen → reqN = frameLen) (rest : Bits) (p : Nat)
+    (hroom : p + 4 + (compPairBits cfg.bitDepth frameLen ls rs mixRes cU cV numU numV).length ≤ byteSize * 8) :
+    decPair (comp Rules.current byteSize) Rules.current cfg reqN
+        ⟨bitsOf inst 4 ++ (compPairBits cfg.bitDepth frameLen ls rs mixRes cU cV numU numV ++ rest), p⟩ =
+      .done ls.length [ls.map (trunc cfg.bitDepth), rs.map (trunc cfg.bitDepth)]
+        ⟨rest, p + 4 + (compPairBits cfg.bitDepth frameLen ls rs mixRes cU cV numU numV).length⟩ := by
+  obtain ⟨hbs, hcb1, hcb31, hle⟩ := depth_facts hd
+  have hLl : (List.zip ls rs).length = ls.length := by rw [List.length_zip, hlen, Nat.min_self]
+  have hmemL : ∀ lr ∈ List.zip ls rs, I32 lr.1 ∧ I32 lr.2 := fun lr h => ⟨hls _ (List.of_mem_zip h).1, hrs _ (List.of_mem_zip h).2⟩
+  -- the matrixed channels fit, so do their residuals, and the predictor inverts
+  have hUfit : ∀ y ∈ ((List.zip ls rs).map (pairUV cfg.bitDepth mixRes)).map (·.1), Fits (cfg.bitDepth - 8 * bytesShiftedOf cfg.bitDepth + 1) y := by
+    intro y hy; simp only [List.mem_map] at hy
+    obtain ⟨_, ⟨lr, hlr, rfl⟩, rfl⟩ := hy
+    exact (pairUV_fits hd mixRes hm (hmemL lr hlr).1 (hmemL lr hlr).2).1
+  have hVfit : ∀ y ∈ ((List.zip ls rs).map (pairUV cfg.bitDepth mixRes)).map (·.2), Fits (cfg.bitDepth - 8 * bytesShiftedOf cfg.bitDepth + 1) y := by
+    intro y hy; simp only [List.mem_map] at hy
+    obtain ⟨_, ⟨lr, hlr, rfl⟩, rfl⟩ := hy
+    exact (pairUV_fits hd mixRes hm (hmemL lr hlr).1 (hmemL lr hlr).2).2
+  rw [compPairBits_eq] at hroom ⊢
+  generalize hUdef : ((List.zip ls rs).map (pairUV cfg.bitDepth mixRes)).map (·.1) = U at hUfit hroom ⊢
+  generalize hVdef : ((List.zip ls rs).map (pairUV cfg.bitDepth mixRes)).map (·.2) = V at hVfit hroom ⊢
+  have hUl : U.length = ls.length := by rw [← hUdef]; simp [hLl]
+  have hVl : V.length = ls.length := by rw [← hVdef]; simp [hLl]
+  have hunU : unpcBlock (pcBlock U cU numU (cfg.bitDepth - 8 * bytesShiftedOf cfg.bitDepth + 1) 9).1 (cU.take numU) (cU.take numU).length
+      (cfg.bitDepth - 8 * bytesShiftedOf cfg.bitDepth + 1) 9 = U := by
+    rw [List.length_take, Nat.min_eq_left hU, ← pcBlock_take]
+    exact unpcBlock_pcBlock _ _ numU _ 9 (by omega) (by omega) (fun y hy => sx_of_fits _ (by omega) y (hUfit y hy).1 (hUfit y hy).2)
+  have hunV : unpcBlock (pcBlock V cV numV (cfg.bitDepth - 8 * bytesShiftedOf cfg.bitDepth + 1) 9).1 (cV.take numV) (cV.take numV).length
+      (cfg.bitDepth - 8 * bytesShiftedOf cfg.bitDepth + 1) 9 = V := by
+    rw [List.length_take, Nat.min_eq_left hV, ← pcBlock_take]
+    exact unpcBlock_pcBlock _ _ numV _ 9 (by omega) (by omega) (fun y hy => sx_of_fits _ (by omega) y (hVfit y hy).1 (hVfit y hy).2)
+  have hpUfit := pcBlock_fits U cU numU (cfg.bitDepth - 8 * bytesShiftedOf cfg.bitDepth + 1) 9 (by omega) hUfit
+  have hpVfit := pcBlock_fits V cV numV (cfg.bitDepth - 8 * bytesShiftedOf cfg.bitDepth + 1) 9 (by omega) hVfit
+  have hpUl : (pcBlock U cU numU (cfg.bitDepth - 8 * bytesShiftedOf cfg.bitDepth + 1) 9).1.length = ls.length := by rw [pcBlock_length, hUl]
+  have hpVl : (pcBlock V cV numV (cfg.bitDepth - 8 * bytesShiftedOf cfg.bitDepth + 1) 9).1.length = ls.length := by rw [pcBlock_length, hVl]
+  generalize (pcBlock U cU numU (cfg.bitDepth - 8 * bytesShiftedOf cfg.bitDepth + 1) 9).1 = pcU at hunU hpUfit hpUl hroom ⊢
+  generalize (pcBlock V cV numV (cfg.bitDepth - 8 * bytesShiftedOf cfg.bitDepth + 1) 9).1 = pcV at hunV hpVfit hpVl hroom ⊢
+  have hSH := pairShiftBits_length cfg.bitDepth ls rs hlen
+  simp only [List.length_append, hdrBits_length, bitsOf_length, coefBits_length cU numU hU, coefBits_length cV numV hV, hSH] at hroom ⊢
+  have hE : (if decide (ls.length ≠ frameLen) = true then 48 else 16) = escHeaderLen ls.length := by
+    unfold escHeaderLen; by_cases h : ls.length = frameLen <;> simp [h]
+  rw [hE] at hroom ⊢
+  unfold decPair
+  simp only [List.append_assoc]
+  rw [rdHeader_hdr inst ls.length reqN (bytesShiftedOf cfg.bitDepth) false hbs hn hreq]
+  simp only [Bool.false_eq_true, if_false, comp, compPair, rdChanParams, read_bitsOf]
+  have hfu : (4 * 32 + numU) % 2 ^ 8 = 128 + numU := by omega
+  have hfv : (4 * 32 + numV) % 2 ^ 8 = 128 + numV := by omega
+  have hmr : mixRes % 2 ^ 8 = mixRes := by omega
+  simp only [hfu, hfv, hmr, show (128 + numU) % 32 = numU by omega, show (128 + numV) % 32 = numV by omega]
+  unfold coefBits
+  have hctU : (cU.take numU).length = numU := by rw [List.length_take, Nat.min_eq_left hU]
+  have hctV : (cV.take numV).length = numV := by rw [List.length_take, Nat.min_eq_left hV]
+  have hrcU := rdCoefs_coefBits (cU.take numU) hcU
+  have hrcV := rdCoefs_coefBits (cV.take numV) hcV
+  rw [hctU] at hrcU
+  rw [hctV] at hrcV
+  rw [hrcU]
+  simp only [read_bitsOf, hfv, show (128 + numV) % 32 = numV by omega]
+  rw [hrcV]
+  simp only [Nat.reducePow, Nat.reduceMod, Nat.reduceDiv]
+  -- the guard, and the reader behind the shifted-off bytes
+  have hdom : inDomain cfg (cfg.bitDepth - 8 * bytesShiftedOf cfg.bitDepth + 1) = true := by simp [inDomain, hkb]; omega
+  have hnlt : ¬ (cfg.bitDepth < 8 * bytesShiftedOf cfg.bitDepth) := by omega
+  simp only [hdom, Bool.not_true, Bool.false_or, decide_eq_true_eq, hnlt, show ¬ ((2 : Nat) ≥ 32) by decide, decide_false, Bool.and_false,
+    Bool.or_false, Bool.false_eq_true, if_false]
+  have hR : ∀ (X : Bits) (P : Nat),
+      (if bytesShiftedOf cfg.bitDepth ≠ 0 then (Rd.mk (pairShiftBits cfg.bitDepth ls rs ++ X) P).advance (8 * bytesShiftedOf cfg.bitDepth * 2 * ls.length)
+        else Rd.mk (pairShiftBits cfg.bitDepth ls rs ++ X) P) = Rd.mk X (P + (pairShiftBits cfg.bitDepth ls rs).length) := by
+    intro X P
+    by_cases hb0 : bytesShiftedOf cfg.bitDepth = 0
+    · simp [hb0, pairShiftBits]
+    · have hl : (pairShiftBits cfg.bitDepth ls rs).length = 8 * bytesShiftedOf cfg.bitDepth * 2 * ls.length := by
+        rw [hSH]; simp only [hb0, ne_eq, not_false_eq_true, if_true]; ring
+      simp only [hb0, ne_eq, not_false_eq_true, if_true, Rd.advance, List.drop_left' hl, hl]
+  simp only [hR]
+  -- the two channels
+  have hd1 := decChan_comp cfg hmb hpb hkb byteSize (cfg.bitDepth - 8 * bytesShiftedOf cfg.bitDepth + 1) (by omega) (by omega) pcU (cU.take numU) numU
+    ls.length hpUl (by omega) hpUfit (dynComp stdAg pcV (cfg.bitDepth - 8 * bytesShiftedOf cfg.bitDepth + 1) ++ rest)
+    (p + 4 + escHeaderLen ls.length + 8 + 8 + 8 + 8 + 16 * numU + 8 + 8 + 16 * numV + (pairShiftBits cfg.bitDepth ls rs).length)
+    (by rw [hSH]; omega)
+  rw [hd1]
+  simp only []
+  have hd2 := decChan_comp cfg hmb hpb hkb byteSize (cfg.bitDepth - 8 * bytesShiftedOf cfg.bitDepth + 1) (by omega) (by omega) pcV (cV.take numV) numV
+    ls.length hpVl (by omega) hpVfit rest
+    (p + 4 + escHeaderLen ls.length + 8 + 8 + 8 + 8 + 16 * numU + 8 + 8 + 16 * numV + (pairShiftBits cfg.bitDepth ls rs).length +
+      (dynComp stdAg pcU (cfg.bitDepth - 8 * bytesShiftedOf cfg.bitDepth + 1)).length)
+    (by rw [hSH]; omega)
+  rw [hd2]
+  simp only [hunU, hunV]
+  have hdep : cfg.bitDepth = 16 ∨ cfg.bitDepth = 20 ∨ cfg.bitDepth = 24 ∨ cfg.bitDepth = 32 := hd
+  simp only [hdep, if_true, sext8_small mixRes hm]
+  -- the un-matrixing frame by frame
+  have houts : List.map (fun x : (Int × Int) × (Nat × Nat) => unmixPair cfg.bitDepth (bytesShiftedOf cfg.bitDepth) 2 (mixRes : Int) x.1.1 x.1.2 x.2)
+      ((U.zip V).zip
+        (if bytesShiftedOf cfg.bitDepth ≠ 0 then
+          pairUp (rdFields (8 * bytesShiftedOf cfg.bitDepth) (2 * ls.length)
+            ⟨pairShiftBits cfg.bitDepth ls rs ++ (dynComp stdAg pcU (cfg.bitDepth - 8 * bytesShiftedOf cfg.bitDepth + 1) ++
+              (dynComp stdAg pcV (cfg.bitDepth - 8 * bytesShiftedOf cfg.bitDepth + 1) ++ rest)),
+              p + 4 + escHeaderLen ls.length + 8 + 8 + 8 + 8 + 16 * numU + 8 + 8 + 16 * numV⟩).1
+        else List.replicate ls.length (0, 0))) =
+      (List.zip ls rs).map fun lr => some (trunc cfg.bitDepth lr.1, trunc cfg.bitDepth lr.2) := by
+    rw [← hUdef, ← hVdef, zip_map_same]
+    have hM : (List.map (pairUV cfg.bitDepth mixRes) (ls.zip rs)).map (fun x => (x.1, x.2)) = List.map (pairUV cfg.bitDepth mixRes) (ls.zip rs) := by
+      simp
+    rw [hM]
+    by_cases hb0 : bytesShiftedOf cfg.bitDepth = 0
+    · simp only [hb0, ne_eq, not_true_eq_false, if_false]
+      rw [← hLl, zip_map_replicate, List.map_map]
+      apply List.map_congr_left
+      intro lr hlr
+      simp only [Function.comp]
+      have := unmixPair_frame hd mixRes hm (hmemL lr hlr).1 (hmemL lr hlr).2
+      rw [hb0] at this
+      rw [← this]
+      unfold pairUV
+      exact unmixPair_noshift hd hb0 _ _ _ _ _
+    · simp only [hb0, ne_eq, not_false_eq_true, if_true]
+      have hsl : ∀ ab ∈ (List.zip ls rs).map (fun lr => (pairIn cfg.bitDepth lr.1 lr.2).2), ab.2 < 2 ^ (8 * bytesShiftedOf cfg.bitDepth) := by
+        intro ab hab; simp only [List.mem_map] at hab; obtain ⟨lr, _, rfl⟩ := hab
+        exact Nat.mod_lt _ (Nat.pow_pos (by decide))
+      have hsl1 : ∀ x ∈ interleave ((List.zip ls rs).map (fun lr => (pairIn cfg.bitDepth lr.1 lr.2).2)), x < 2 ^ (8 * bytesShiftedOf cfg.bitDepth) := by
+        intro x hx
+        simp only [interleave, List.mem_flatMap, List.mem_map] at hx
+        obtain ⟨ab, ⟨lr, _, rfl⟩, hx⟩ := hx
+        simp only [List.mem_cons, List.not_mem_nil, or_false] at hx
+        rcases hx with rfl | rfl <;> exact Nat.mod_lt _ (Nat.pow_pos (by decide))
+      have hrf := rdFields_enc (8 * bytesShiftedOf cfg.bitDepth) (interleave ((List.zip ls rs).map (fun lr => (pairIn cfg.bitDepth lr.1 lr.2).2))) hsl1
+      rw [interleave_length, List.length_map, hLl] at hrf
+      unfold pairShiftBits
+      simp only [hb0, ne_eq, not_false_eq_true, if_true]
+      rw [shift_bits_eq _ _ hsl, hrf, pairUp_interleave, zip_map_same, List.map_map]
+      apply List.map_congr_left
+      intro lr hlr
+      simp only [Function.comp]
+      have := unmixPair_frame hd mixRes hm (hmemL lr hlr).1 (hmemL lr hlr).2
+      rw [← this]
+      unfold pairUV
+      rfl
+  rw [houts]
+  simp only [List.map_map, Function.comp, Option.getD_some, ElemRes.done.injEq, true_and]
+  refine ⟨?_, ?_⟩
+  · simp only [Function.comp_def, Option.getD_some]
+    have h1 : (List.zip ls rs).map (fun lr => trunc cfg.bitDepth lr.1) = ls.map (trunc cfg.bitDepth) := by
+      have := congrArg (List.map (trunc cfg.bitDepth)) (List.map_fst_zip (l₁ := ls) (l₂ := rs) (by omega))
+      simpa [List.map_map, Function.comp_def] using this
+    have h2 : (List.zip ls rs).map (fun lr => trunc cfg.bitDepth lr.2) = rs.map (trunc cfg.bitDepth) := by
+      have := congrArg (List.map (trunc cfg.bitDepth)) (List.map_snd_zip (l₁ := ls) (l₂ := rs) (by omega))
+      simpa [List.map_map, Function.comp_def] using this
+    rw [h1, h2]
+  · rw [hSH]; simp only [Rd.mk.injEq, true_and]; omega
+
 end Sf.AlacCore
